@@ -3,8 +3,13 @@
    server/src/lib.rs), so the statement holds for every backend, store, request and outcome —
    router 404s, refusals and storage-error 500s included.  That actix applies the wrapper to
    every response of the scope is established by the correspondence run, not here. *)
-From TSS Require Import Http proofs.HttpProps.
+From TSS Require Import Http proofs.HttpProps proofs.HttpReach proofs.HttpLib2.
 
 Theorem C20_cache_control_everywhere : forall B cfg allow s rq E,
   rs_cache (fst (fst (http_step B cfg allow s (rq, E)))) = true.
 Proof. exact cache_control_everywhere. Qed.
+
+(* for whole histories: every response of every HTTP history, from any store, on any backend *)
+Theorem C20_cache_control_history : forall B cfg allow h s,
+  Forall (fun r => rs_cache r = true) (fst (hrun B cfg allow s h)).
+Proof. exact cache_control_history. Qed.
